@@ -283,15 +283,68 @@ func runC14(c *Ctx) {
 			r.Violate(Violation{What: "unary minus differs from Go negation at the operand's kind", Key: "c14:neg:" + kindNameOf(a), Input: valSx(a).String(), Expect: uresp[i], Got: impl})
 		}
 	}
+	// ** : float64(a) ** float64(b) (math.Pow is library behaviour: compared with libm pow up to 4 ulp), result kind float64;
+	// AsFloat64(): the result cast is Go's float64(x) for every kind, extrema included
+	var plines []string
+	type pc struct{ a, b interface{} }
+	var pcs []pc
 	for _, ka := range kindOrder {
 		for _, kb := range kindOrder {
-			a, b := grids[ka][1], grids[kb][2]
-			v, err := expr.Eval("a ** b", map[string]interface{}{"a": a, "b": b})
-			r.Case("**"+ka+kb, true)
-			r.Count("op:**", 1)
-			if err != nil || kindNameOf(v) != "float64" {
-				r.Violate(Violation{What: "** does not yield float64", Key: "c14:pow:" + ka + ":" + kb, Input: ka + " ** " + kb, Expect: "float64", Got: fmt.Sprint(v, err)})
+			ga, gb := grids[ka], grids[kb]
+			for i := 0; i < 6; i++ {
+				a := ga[(i*7+1)%len(ga)]
+				if i >= 3 {
+					a = ga[len(ga)-1-(i-3)] // extrema
+				}
+				b := gb[[]int{0, 1, 2}[i%3]%len(gb)]
+				pcs = append(pcs, pc{a, b})
+				plines = append(plines, T("pow", valSx(a), valSx(b)).String())
 			}
+		}
+	}
+	presp, err := c.AskAll(plines)
+	if err != nil {
+		r.Mismatch("driver", "pow", err.Error(), "")
+		return
+	}
+	for i, k := range pcs {
+		v, err := expr.Eval("a ** b", map[string]interface{}{"a": k.a, "b": k.b})
+		r.Case("**"+valSx(k.a).String()+valSx(k.b).String(), true)
+		r.Count("op:**", 1)
+		if err != nil || kindNameOf(v) != "float64" {
+			r.Violate(Violation{What: "** does not yield float64", Key: "c14:pow:" + kindNameOf(k.a) + ":" + kindNameOf(k.b), Input: valSx(k.a).String() + " ** " + valSx(k.b).String(), Expect: "float64", Got: fmt.Sprint(v, err)})
+			continue
+		}
+		if !f64RespClose(presp[i], v.(float64)) {
+			r.Violate(Violation{What: "** differs from pow(float64(a), float64(b))", Key: "c14:powval:" + kindNameOf(k.a) + ":" + kindNameOf(k.b),
+				Input: map[string]string{"a": valSx(k.a).String(), "b": valSx(k.b).String()}, Expect: presp[i], Got: valSx(v).String()})
+		}
+	}
+	var flines []string
+	var fvals []interface{}
+	for _, k := range kindOrder {
+		for _, a := range grids[k] {
+			fvals = append(fvals, a)
+			flines = append(flines, T("tofloat", valSx(a)).String())
+		}
+	}
+	fresp, err := c.AskAll(flines)
+	if err != nil {
+		r.Mismatch("driver", "tofloat", err.Error(), "")
+		return
+	}
+	for i, a := range fvals {
+		env := map[string]interface{}{"a": a}
+		p, cerr := expr.Compile("a", expr.Env(env), expr.AsFloat64())
+		if cerr != nil {
+			r.Violate(Violation{What: "AsFloat64 rejected a numeric expression", Key: "c14:asfloat:compile", Input: valSx(a).String(), Got: cerr.Error()})
+			continue
+		}
+		v, err := expr.Run(p, env)
+		r.Case("float64("+valSx(a).String()+")", true)
+		r.Count("op:asfloat64", 1)
+		if impl := implOutcome(v, err); impl != fresp[i] {
+			r.Violate(Violation{What: "AsFloat64 result differs from Go's float64(x)", Key: "c14:asfloat:" + kindNameOf(a), Input: valSx(a).String(), Expect: fresp[i], Got: impl})
 		}
 	}
 	for _, o := range c14ops {
@@ -299,6 +352,26 @@ func runC14(c *Ctx) {
 			r.Mismatch("generator", o.op, "no case generated", "")
 		}
 	}
+}
+
+// f64RespClose: model response `(ok (f64 bits))` within 4 ulp of x (or both NaN)
+func f64RespClose(resp string, x float64) bool {
+	m, err := ParseSx(resp)
+	if err != nil || m.Tag() != "ok" || m.List[1].Tag() != "f64" {
+		return false
+	}
+	var b uint64
+	fmt.Sscan(m.List[1].List[1].Atom, &b)
+	y := math.Float64frombits(b)
+	if x != x || y != y {
+		return x != x && y != y
+	}
+	xb := math.Float64bits(x)
+	d := xb - b
+	if b > xb {
+		d = b - xb
+	}
+	return d <= 4
 }
 
 func isSmall(v interface{}) bool {
